@@ -209,7 +209,7 @@ func canon(addr string) string {
 
 func genC06(t *rapid.T, l *world.Lab) caseC06 {
 	w := l.W
-	denom := pick(t, "denom", []string{world.Uusdc, world.Ufoo, world.Gamm, world.Uhuge})
+	denom := pick(t, "denom", []string{world.Uusdc, world.Ufoo, world.Gamm, world.Uhuge, world.SwapDenomUpper})
 	ch := rapid.IntRange(0, 3).Draw(t, "channel")
 	if denom == world.Uhuge {
 		ch = 0
